@@ -209,6 +209,14 @@ def _ident(item):
   return int(x.reshape(-1)[0] % 100000) // 1000 - 1
 
 
+def _scan_body(c, x):
+  c2 = c * 2.0 + jnp.sum(x)  # order-sensitive carry
+  if x.ndim:
+    # position-sensitive: a ramp along the slice's FIRST axis (with keepdims a unit axis when axis 0 is scanned)
+    return c2, x + c2 + jnp.arange(x.shape[0], dtype=jnp.float32).reshape((-1,) + (1,) * (x.ndim - 1))
+  return c2, x + c2
+
+
 def execute_helpers(plan):
   """scan_in_dim == nested Python loop over the chosen axes (in the given order); shard / stack_forest / onehot /
   unreplicate are the stated reshapes.  Pure functions: plain input generation, carried by this check as workload."""
@@ -221,26 +229,34 @@ def execute_helpers(plan):
     shape, axis = tuple(k['shape']), tuple(k['axis'])
     xs = (np.arange(int(np.prod(shape)), dtype=np.float32).reshape(shape) % 7) + k['fill']
 
-    def body(c, x):
-      c2 = c * 2.0 + jnp.sum(x)  # order-sensitive carry
-      return c2, x + c2
-
-    c, ys = jax_utils.scan_in_dim(body, jnp.zeros((), jnp.float32), jnp.asarray(xs), axis=axis, keepdims=k['keepdims'])
-    # reference: nested Python loops, outermost = axis[0]
+    # ONE body function object for the whole process (a warm per-function cache must not carry the axes of an earlier
+    # call over), sensitive to the order of the iterations (carry) and, with keepdims, to WHERE the kept unit axes sit;
+    # a second call in the same history scans other axes of the same count
     import itertools
 
-    cref = np.float32(0)
-    rest = [i for i in range(len(shape)) if i not in axis]
-    yref = np.zeros(shape, np.float32)
-    for idx in itertools.product(*[range(shape[a]) for a in axis]):
-      sl = [slice(None)] * len(shape)
-      for a, i in zip(axis, idx):
-        sl[a] = i
-      x = xs[tuple(sl)]
-      cref = np.float32(cref * 2.0 + x.sum())
-      yref[tuple(sl)] = x + cref
-    if float(c) != float(cref) or np.asarray(ys).reshape(shape).tobytes() != yref.tobytes():
-      raise Violation('scan-in-dim-mismatch', f'scan_in_dim(axis={axis}, keepdims={k["keepdims"]}) on shape {shape}: carry {float(c)} vs loop {float(cref)}')
+    alt = tuple(reversed(axis)) if len(axis) > 1 else ((axis[0] + 1) % len(shape),)
+    for ax in (axis, alt):
+      try:
+        c, ys = jax_utils.scan_in_dim(_scan_body, jnp.zeros((), jnp.float32), jnp.asarray(xs), axis=ax, keepdims=k['keepdims'])
+      except Exception as e:  # noqa: BLE001
+        if not kernel.through_sut(e):
+          raise
+        raise Violation('scan-in-dim-mismatch', f'scan_in_dim(axis={ax}, keepdims={k["keepdims"]}) on shape {shape} raised {type(e).__name__}: {str(e)[:160]}')
+      # reference: nested Python loops, outermost = ax[0]
+      cref = np.float32(0)
+      yref = np.zeros(shape, np.float32)
+      for idx in itertools.product(*[range(shape[a]) for a in ax]):
+        sl = [slice(None)] * len(shape)
+        for a, i in zip(ax, idx):
+          sl[a] = i
+        x = xs[tuple(sl)]
+        if k['keepdims']:
+          x = x.reshape([1 if a in ax else shape[a] for a in range(len(shape))])
+        cref = np.float32(cref * 2.0 + x.sum())
+        y = x + cref + np.arange(x.shape[0], dtype=np.float32).reshape((-1,) + (1,) * (x.ndim - 1)) if x.ndim else x + cref
+        yref[tuple(sl)] = y.reshape(xs[tuple(sl)].shape)
+      if float(c) != float(cref) or np.asarray(ys).reshape(shape).tobytes() != yref.tobytes():
+        raise Violation('scan-in-dim-mismatch', f'scan_in_dim(axis={ax}, keepdims={k["keepdims"]}) on shape {shape}: carry {float(c)} vs loop {float(cref)}, outputs equal: {np.asarray(ys).reshape(shape).tobytes() == yref.tobytes()}')
     d = k['devices']
     real_ldc = jax.local_device_count
     jax.local_device_count = lambda *a, **kw: d
